@@ -95,6 +95,9 @@ func js(v interface{}) string {
 }
 
 func classOf(rname string) string {
+	if rname == "svc" {
+		return "root" // the resource named like the service (empty pattern)
+	}
 	t := strings.Split(rname, ".")
 	if len(t) >= 2 {
 		return t[1]
@@ -243,7 +246,7 @@ func listenerIDs(cfg Config, class string) []string {
 func (h *harness) build(cfg Config) *res.Service {
 	s := res.NewService("svc")
 	s.SetWorkerCount(3)
-	types := map[string]string{"m": "model", "c": "collection", "u": "", "mm": "model"}
+	types := map[string]string{"m": "model", "c": "collection", "u": "", "mm": "model", "root": "model"}
 	// listener i=0: AddListener on the owning mux; i=1: Handler.Listeners of another handler; i=2: AddListener again
 	others := map[string]func(*res.Event){}
 	for _, class := range []string{"m", "c", "u"} {
@@ -255,6 +258,10 @@ func (h *harness) build(cfg Config) *res.Service {
 	for _, class := range []string{"m", "c", "u"} {
 		s.Handle(class+".$id", h.handlerOpts(cfg, types[class])...)
 	}
+	s.Handle("", h.handlerOpts(cfg, "model")...)
+	if ids := listenerIDs(cfg, "root"); len(ids) > 1 {
+		others[""] = h.listener(ids[1])
+	}
 	// mounted mux
 	sub := res.NewMux("")
 	sub.Handle("$id", h.handlerOpts(cfg, "model")...)
@@ -264,6 +271,9 @@ func (h *harness) build(cfg Config) *res.Service {
 			return
 		}
 		// resolve every resource between the registration steps
+		if _, err := s.Resource("svc"); err != nil {
+			panic("warm lookup: " + err.Error())
+		}
 		for _, class := range []string{"m", "c", "u", "mm"} {
 			for _, id := range []string{"1", "2", "abc"} {
 				if _, err := s.Resource("svc." + class + "." + id); err != nil {
@@ -280,6 +290,12 @@ func (h *harness) build(cfg Config) *res.Service {
 		}
 		if len(ids) > 2 {
 			s.AddListener(class+".$id", h.listener(ids[2]))
+		}
+	}
+	if ids := listenerIDs(cfg, "root"); len(ids) > 0 {
+		s.AddListener("", h.listener(ids[0]))
+		if len(ids) > 2 {
+			s.AddListener("", h.listener(ids[2]))
 		}
 	}
 	s.AddHandler("other", res.Handler{Call: map[string]res.CallHandler{"x": func(r res.CallRequest) { r.OK(nil) }}, Listeners: others})
@@ -364,7 +380,7 @@ func validPart(p string) bool {
 // predict returns the expected log of one callback and flags for non-triviality.
 func predict(cfg Config, cb Callback, reply string) (out []logEntry, failing, invalid int, events int) {
 	class := classOf(cb.RName)
-	typ := map[string]string{"m": "model", "c": "collection", "u": "", "mm": "model"}[class]
+	typ := map[string]string{"m": "model", "c": "collection", "u": "", "mm": "model", "root": "model"}[class]
 	lids := listenerIDs(cfg, class)
 	replied := false
 	listeners := func(name string, f map[string]interface{}) {
@@ -705,15 +721,18 @@ func genCase() *rapid.Generator[Case] {
 		for _, k := range []string{"change", "add", "remove", "create", "delete"} {
 			c.Cfg.Apply[k] = rapid.IntRange(0, 2).Draw(t, "apply-"+k) > 0
 		}
-		for _, k := range []string{"m", "c", "u", "mm"} {
+		for _, k := range []string{"m", "c", "u", "mm", "root"} {
 			c.Cfg.Listeners[k] = rapid.IntRange(0, 3).Draw(t, "listeners-"+k)
 		}
 		c.Cfg.Warm = rapid.IntRange(0, 3).Draw(t, "warm") == 0
 		n := rapid.IntRange(1, 4).Draw(t, "ncb")
 		for i := 0; i < n; i++ {
 			cb := Callback{Via: rapid.SampledFrom([]string{"with", "call"}).Draw(t, "via")}
-			class := rapid.SampledFrom([]string{"m", "c", "u", "mm", "m", "c"}).Draw(t, "class")
+			class := rapid.SampledFrom([]string{"m", "c", "u", "mm", "m", "c", "root"}).Draw(t, "class")
 			cb.RName = "svc." + class + "." + rapid.SampledFrom([]string{"1", "2", "abc"}).Draw(t, "id")
+			if class == "root" {
+				cb.RName = "svc"
+			}
 			k := rapid.IntRange(1, 8).Draw(t, "nev")
 			for j := 0; j < k; j++ {
 				cb.Script = append(cb.Script, genCall(t, class))
@@ -727,7 +746,7 @@ func genCase() *rapid.Generator[Case] {
 func genCall(t *rapid.T, class string) EvCall {
 	var ops []string
 	switch class {
-	case "m", "mm":
+	case "m", "mm", "root":
 		ops = []string{"change", "change", "change", "create", "delete", "custom", "add", "remove", "reaccess", "timeout", "reply"}
 	case "c":
 		ops = []string{"add", "add", "remove", "remove", "create", "delete", "custom", "change", "reaccess", "timeout", "reply"}
